@@ -1,7 +1,7 @@
 #!/usr/bin/env python3
 # tools/denseofflinegen_mutants.py — does the generated-model tie of the dense-time OFFLINE visitor notice changes?
 # Each change is applied to a scratch COPY of the source files (never to the repository), the translator is run on the copy and
-# DenseOfflineGen.v / DenseOfflineGenCorrect.v are compiled against the result in a scratch directory.
+# DenseOfflineGen.v / DenseOfflineGenWinCorrect.v / DenseOfflineGenCorrect.v are compiled against the result in a scratch directory.
 # Verdicts: "translator fails closed: <msg>" | "<lemma> fails" | "all lemmas check (generated text changed/identical)".
 import ast, os, re, shutil, subprocess, sys
 ROOT = os.path.dirname(os.path.dirname(os.path.abspath(__file__)))
@@ -18,6 +18,25 @@ def sub(rel, old, new, count=1):
         src = open(p).read()
         assert src.count(old) >= 1, (rel, old)
         out = src.replace(old, new, count)
+        assert out != src
+        ast.parse(out)
+        open(p, 'w').write(out)
+    return f
+
+def infunc(rel, fname, pairs):
+    """replace old -> new (every occurrence, at least one each) inside the module-level function fname only"""
+    def f(root):
+        p = root + '/' + rel
+        src = open(p).read()
+        i = src.index('\ndef %s(' % fname) + 1
+        j = src.find('\ndef ', i)
+        k = src.find('\nclass ', i)
+        j = min(x for x in (j, k, len(src)) if x >= 0)
+        body = src[i:j]
+        for old, new in pairs:
+            assert body.count(old) >= 1, (fname, old)
+            body = body.replace(old, new)
+        out = src[:i] + body + src[j:]
         assert out != src
         ast.parse(out)
         open(p, 'w').write(out)
@@ -47,7 +66,21 @@ CHANGES = [
   ('R3 visitAbs: the two temporaries inlined', sub(VIS, "            out_time = i[0]\n            out_value = abs(i[1])\n            sample_return.append([out_time, out_value])", "            sample_return.append([i[0], abs(i[1])])")),
   ('R4 since_timed_operation: the common first statements hoisted out of the if', sub(VIS, "    if (begin > 0):\n        out1 = once_timed_operation(sample_right, begin, end)\n        out2 = since_operation(sample_left, sample_right)\n        out3 = historically_timed_operation(out2, 0, begin)\n        sample_return = and_operation(out1, out3)\n    else:\n        out1 = once_timed_operation(sample_right, begin, end)\n        out2 = since_operation(sample_left, sample_right)\n        sample_return = and_operation(out1, out2)",
        "    out1 = once_timed_operation(sample_right, begin, end)\n    out2 = since_operation(sample_left, sample_right)\n    if (begin > 0):\n        out3 = historically_timed_operation(out2, 0, begin)\n        sample_return = and_operation(out1, out3)\n    else:\n        sample_return = and_operation(out1, out2)")),
-  ('X1 a pinned window loop changed: once_timed_operation a[2] >= b[2] -> a[2] > b[2]', sub(VIS, "                if a[2] >= b[2]:\n                    out.append((a[1], b[1], b[2]))", "                if a[2] > b[2]:\n                    out.append((a[1], b[1], b[2]))")),
+  ('W1 once_timed_operation: a[2] >= b[2] -> a[2] > b[2]', sub(VIS, "                if a[2] >= b[2]:\n                    out.append((a[1], b[1], b[2]))", "                if a[2] > b[2]:\n                    out.append((a[1], b[1], b[2]))")),
+  ('W2 once_timed_operation: popping loop b[0] < a[0] -> b[0] <= a[0]', sub(VIS, "            while (a[2] < b[2]) and (b[0] < a[0]):", "            while (a[2] < b[2]) and (b[0] <= a[0]):")),
+  ('W3 historically_timed_operation: padding piece float(inf) -> -float(inf)', sub(VIS, "            out.append((0, input_list[0][0] + begin, float('inf')))", "            out.append((0, input_list[0][0] + begin, -float('inf')))")),
+  ('W4 once_timed_operation: piece ends at input_list[i][0] + begin instead of + end', sub(VIS, "            b = (input_list[i - 1][0] + begin, input_list[i][0] + end, input_list[i - 1][1])", "            b = (input_list[i - 1][0] + begin, input_list[i][0] + begin, input_list[i - 1][1])")),
+  ('W5 always_timed_operation: (a[1] > b[1]) -> (a[1] >= b[1]) before re-inserting the rest of a', sub(VIS, "                    if (a[1] > b[1]):\n                        out.insert(0, (b[1], a[1], a[2]))\n                    out.insert(0, (b[0], b[1], b[2]))\n\n        i = i - 1\n\n    for i, b in enumerate(out):\n        if b[0] <= 0 and b[1] > 0:\n            ans.append([0, b[2]])\n        elif b[0] > 0:\n            ans.append([b[0], b[2]])\n\n    return ans\n\ndef eventually",
+       "                    if (a[1] >= b[1]):\n                        out.insert(0, (b[1], a[1], a[2]))\n                    out.insert(0, (b[0], b[1], b[2]))\n\n        i = i - 1\n\n    for i, b in enumerate(out):\n        if b[0] <= 0 and b[1] > 0:\n            ans.append([0, b[2]])\n        elif b[0] > 0:\n            ans.append([b[0], b[2]])\n\n    return ans\n\ndef eventually")),
+  ('W6 eventually_timed_operation: the loop stops at i > 0 (the first segment is not pushed)', infunc(VIS, 'eventually_timed_operation', [("    while i >= 0:", "    while i > 0:")])),
+  ('W7 always_timed_operation: clipping b[0] <= 0 and b[1] > 0 -> b[1] >= 0', infunc(VIS, 'always_timed_operation', [("        if b[0] <= 0 and b[1] > 0:", "        if b[0] <= 0 and b[1] >= 0:")])),
+  ('W8 eventually_timed_operation: out.insert(0, (b[0], a[0], b[2])) -> (b[0], a[1], b[2])', infunc(VIS, 'eventually_timed_operation', [("out.insert(0, (b[0], a[0], b[2]))", "out.insert(0, (b[0], a[1], b[2]))")])),
+  ('R5 once_timed_operation: rename the local a -> cur', infunc(VIS, 'once_timed_operation', [("a = out[len(out) - 1]", "cur = out[len(out) - 1]"), ("a[", "cur[")])),
+  ('R8 once_timed_operation: rename the local a -> top_piece (the state tuple of the inner while is sorted by name: (a, out) becomes (out, top_piece); the tie gen_once_is_past is by conversion)', infunc(VIS, 'once_timed_operation', [("a = out[len(out) - 1]", "top_piece = out[len(out) - 1]"), ("a[", "top_piece[")])),
+  ('R6 historically_timed_operation: the never-read assignments (residual_start, max, prev = []) removed', infunc(VIS, 'historically_timed_operation',
+       [("    prev = []\n", ""), ('    residual_start = float("inf")\n', ""), ('    max = float("inf")\n', "")])),
+  ('R7 historically_timed_operation: the dead `if input_list: domain_end = input_list[len - 1][0]` removed (the generated term changes: the tie gen_hist_is_past is by conversion)', infunc(VIS, 'historically_timed_operation',
+       [("    domain_end = float('inf')\n    if input_list:\n        domain_end = input_list[len(input_list) - 1][0]\n", "")])),
   ('X2 intersection() (hand-modelled) changed', sub(ISECT, 'out_samples = list()', 'out_samples = []')),
   ('X3 visitConstant (hand-modelled) changed', sub(VIS, 'sample_return = [[0, node.val], [float("inf"), node.val]]', 'sample_return = [[0, node.val]]')),
   ('X4 an unsupported construct (try/except) in visitExp', sub(VIS, "            out_value = saturating.exp(i[1])", "            try:\n                out_value = saturating.exp(i[1])\n            except OverflowError:\n                out_value = float('inf')")),
@@ -80,16 +113,19 @@ def run(name, mut):
         return 'translator fails closed (exit %d): %s [%s]' % (r.returncode, msg.split(': py2coq_denseoffline: ')[-1],
                                                                ':'.join(msg.split(': py2coq_denseoffline')[0].split('/')[-1:]))
     same = strip(open(d + '/coq/MutGen.v').read()) == strip(open(TH + '/DenseOfflineGen.v').read())
+    win = open(TH + '/DenseOfflineGenWinCorrect.v').read()
+    assert ' PyDenseOff DenseOfflineGen.\n' in win
+    open(d + '/coq/MutWin.v', 'w').write(win.replace(' PyDenseOff DenseOfflineGen.\n', ' PyDenseOff.\nFrom Mut Require Import MutGen.\n', 1))
     cor = open(TH + '/DenseOfflineGenCorrect.v').read()
-    assert '\n  DenseOfflineGen.' in cor
-    open(d + '/coq/MutCorrect.v', 'w').write(cor.replace('\n  DenseOfflineGen.', '.\nFrom Mut Require Import MutGen.', 1))
-    for f in ['MutGen.v', 'MutCorrect.v']:
+    assert '\n  DenseOfflineGen.\nFrom RV Require Import DenseOfflineGenWinCorrect.' in cor
+    open(d + '/coq/MutCorrect.v', 'w').write(cor.replace('\n  DenseOfflineGen.\nFrom RV Require Import DenseOfflineGenWinCorrect.', '.\nFrom Mut Require Import MutGen MutWin.', 1))
+    for f in ['MutGen.v', 'MutWin.v', 'MutCorrect.v']:
         r = subprocess.run(['timeout', '600', 'coqc', '-Q', TH, 'RV', '-Q', '.', 'Mut', f], cwd=d + '/coq', capture_output=True, text=True)
         if r.returncode != 0:
             m = re.search(r'line (\d+)', r.stderr)
             err = ' '.join(r.stderr.split('Error:')[-1].split())[:110]
             what = lemma_at(d + '/coq/' + f, int(m.group(1))) if m else '?'
-            return 'translated; %s fails (%s...)' % (what if f == 'MutCorrect.v' else 'the generated file does not compile: ' + what, err)
+            return 'translated; %s fails (%s...)' % (what if f != 'MutGen.v' else 'the generated file does not compile: ' + what, err)
     return 'translated (generated text %s); all lemmas check' % ('identical' if same else 'changed')
 
 if __name__ == '__main__':
